@@ -19,7 +19,7 @@ func init() {
 			"NOT covered: the no-loss law and quote handling of the splitter's slow path (a byte-level state machine over runtime strings).",
 		Assume:  []string{"strings.Index / strings.Split semantics"},
 		Trusted: []string{"go/types", "go/ssa"},
-		Run:     func(c *Ctx) { runC14(c); runC14Set(c); runC14Stack(c); runC14Split(c); runC14SplitterUse(c); runC14Verbatim(c); base(c, "STATE", "ALIAS", "LABEL") },
+		Run:     func(c *Ctx) { runC14Parse(c); runC14(c); runC14Set(c); runC14Stack(c); runC14Split(c); runC14SplitterUse(c); base(c, "STATE", "ALIAS", "LABEL") },
 	})
 }
 
@@ -83,6 +83,21 @@ func runC14(c *Ctx) {
 		return
 	}
 	c.Funcs[fnName(fn)] = true
+	// the shape rules below (guard, order, first occurrence, verbatim results) are necessary conditions
+	// of the parser's table; when C14-PARSE has decided the whole table they add nothing and are not
+	// applied (a parser written in another style has no such shapes); when the table has a mismatch or
+	// an undecided case they are applied to say more about what is wrong
+	if pv := parserVerdict(p); pv != nil && pv.decided && len(pv.byFam) == 0 {
+		c.Extra["parser_shape_rules"] = "not applied: the parser's table (C14-PARSE) is decided and matches"
+	} else {
+		runC14ParserShape(c, fn)
+		runC14Verbatim(c)
+	}
+	runC14Fast(c)
+}
+
+func runC14ParserShape(c *Ctx, fn *ssa.Function) {
+	p := c.P
 	c.Rule("C14-GUARD", "message extraction guard ≡ len(text) - barIndex - 1 >= 1 (in every branch that extracts a message)", 2)
 	c.Rule("C14-ORDER", "the '=' search is confined to the text before the first '|' or the two indices are compared", 1)
 	// index calls
@@ -284,8 +299,8 @@ func runC14(c *Ctx) {
 		c.Sites++
 		c.Check(ok, "C14-ORDER", fnName(fn), "delimiters", eqCalls[0].call.Pos(), how, "'=' is searched over the whole text and never related to the position of '|': a message containing '=' (which the builder allows) is split in the middle — GenValidKV(\"required\",\"\",\"a=b\") parses as key \"required|a\"")
 	}
-	runC14Fast(c)
 }
+
 
 // runC14Delim: constants the builder writes vs constants the parser / splitter search.
 func runC14Delim(c *Ctx) {
